@@ -6,4 +6,9 @@ ROOT=$(cd "$(dirname "$0")" && pwd)
 mkdir -p "$ROOT/bin" "$ROOT/evidence" "$ROOT/replays"
 cd "$ROOT/harness"
 go build -o "$ROOT/bin/vcheck" ./cmd/vcheck
-echo setup ok
+
+# engine E2: rewriter + instrumented server build (pre-warms the build cache)
+go build -o "$ROOT/bin/instrument" ./cmd/instrument
+mkdir -p "$ROOT/bin/e2" && python3 "$ROOT/harness/mkoverlay.py" "$ROOT/bin/e2" "$ROOT/bin/instrument"
+go build -tags verif -overlay "$ROOT/bin/e2/overlay.json" -o "$ROOT/bin/vsched" ./cmd/vsched
+echo setup e2 ok
